@@ -69,3 +69,25 @@ if __name__ == "__main__":
             print(r.violation)
             print("\n".join(r.trace[:150]))
             break
+
+
+# --- QueueRA.tla: the queue on the release/acquire memory model --------------------------------------------------------
+RA_INVARIANTS = ["NoDataRace", "FifoExactlyOnce"]
+# (name, capacity, producers, push attempts per producer, pop attempts)
+RA_QUICK = [("ra_c1_2p", 1, ["p1", "p2"], 2, 4), ("ra_c2_2p", 2, ["p1", "p2"], 2, 5)]
+RA_THOROUGH = [("ra_c1_2p3", 1, ["p1", "p2"], 3, 6), ("ra_c3_1p", 3, ["p1"], 7, 8), ("ra_c3_2p", 3, ["p1", "p2"], 2, 5), ("ra_c2_3p", 2, ["p1", "p2", "p3"], 1, 4)]
+
+
+def write_ra(name, consts, cap, producers, npush, npop, workdir, invariants=None):
+    mod = f"MCra_{name}"
+    os.makedirs(workdir, exist_ok=True)
+    with open(os.path.join(workdir, mod + ".tla"), "w") as f:
+        f.write(f"---- MODULE {mod} ----\nEXTENDS QueueRA\nc_Producers == {to_tla(set(producers))}\n====\n")
+    cfg = ["SPECIFICATION Spec", "CONSTANTS", f"  Cap = {cap}", "  Producers <- c_Producers", f"  NPush = {npush}",
+           f"  NPop = {npop}"]
+    for k, v in consts.items():
+        cfg.append(f"  {k} = " + (("TRUE" if v else "FALSE") if isinstance(v, bool) else f'"{v}"'))
+    cfg += ["CHECK_DEADLOCK FALSE", "INVARIANTS", "  " + " ".join(invariants or RA_INVARIANTS)]
+    with open(os.path.join(workdir, mod + ".cfg"), "w") as f:
+        f.write("\n".join(cfg) + "\n")
+    return mod, mod + ".cfg"
